@@ -788,9 +788,10 @@ func (r *Relayer) finishRelayItem(items *relayItems, id uint32) {
 	}
 	if item.isOriginator {
 		item.call.End()
-		if item.mutatedChecksum != nil {
-			item.mutatedChecksum.Release()
-		}
+		// item.mutatedChecksum is not handed back to its pool here: the call can be
+		// finished from the destination's connection (an early response) while this
+		// connection's reader is still sending the re-fragmented request, or
+		// re-checksumming a continuation frame, with it.
 	}
 	r.decrementPending()
 }
